@@ -11,6 +11,11 @@
  *                    Y Table Ref->Int, Z Tree Ref->Int (the KEYS hold the pointers), U heap Tuple; lower case s r u = the same allocated RAW (not registered);
  *                    ! = allocated with alloc_root/new_root (root flag).  The new pointer is
  *                    put into a stack slot (as a program holding it in a local would).
+ *                    W = the probe struct with 300 KB of padding (malloc places it in a fresh mapping, far from
+ *                    every other object); F = finaliser probe (no pointer fields): when the collector
+ *                    finalises it, its destructor ALLOCATES a new managed object and publishes it (see Q)
+ *   Q<fid>=<lid><K>,<place>  what the finaliser of F-node fid does: new node lid of kind K (S or W),
+ *                    published into place = K (a stack slot) | T<s> (TLS entry k<s>) | P<h>.<i> (field i of node h)
  *   C<id>=<src>      new node = copy(src) (registered; src is S R A L T E or U)
  *   P<id>.<i>=<t>    pointer store: field i of S (0,1), the pointer of R / B (i = 0)
  *   I<id>,<k>=<t>    insert: A L U push (k ignored); T E set key k -> Ref to t; Y Z set key Ref to t -> k
@@ -28,7 +33,8 @@
  *   @                (first token) run the whole script in a freshly started Cello Thread: its own
  *                    collector, its own stack bottom, its own TLS table
  * Transcript: observations separated by " | ":
- *   G m=<ids with mark bit set after GC_Mark> a=<ids alive> f=<probe ids finalised> c=<ids with broken canary> x=<notes>
+ *   G m=<ids with mark bit set after GC_Mark> a=<ids alive> f=<probe ids finalised> c=<ids with broken canary>
+ *     w=<1|0: every alive registered node lies inside [gc->minptr, gc->maxptr] (white-box: range_ok)> x=<notes>
  *   M a=... f=... c=... t=<threshold collections seen>
  * alive = registered node not freed by the collector (hook) and still `mem(current(GC), p)`.
  * Addresses are kept XOR-masked in malloc memory, which the collector never scans. */
@@ -58,6 +64,17 @@ static void Probe_Del(var self) {
   p->canary = 0xDEAD0001ull;
 }
 static var Probe = Cello(Probe, Instance(New, NULL, Probe_Del));
+/* the same with 300 KB of padding: calloc serves it from a fresh mapping */
+struct BigProbe { int64_t id; uint64_t canary; var p0; var p1; char pad[300 * 1024]; };
+static var BigProbe = Cello(BigProbe, Instance(New, NULL, Probe_Del));
+/* finaliser probe: its destructor allocates a managed object and publishes it (script op Q) */
+struct FinProbe { int64_t id; uint64_t canary; };
+static void fin_action(long id);
+static void FinProbe_Del(var self) {
+  struct FinProbe* p = self;
+  if (p->canary == CANARY && p->id > 0) { FIN[p->id]++; p->canary = 0xDEAD0001ull; fin_action(p->id); }
+}
+static var FinProbe = Cello(FinProbe, Instance(New, NULL, FinProbe_Del));
 
 /* ledger (malloc memory; addresses masked) */
 static long CAP;
@@ -65,6 +82,7 @@ static uintptr_t* LED;   /* id -> masked address */
 static char* KIND;       /* id -> kind char, 0 = never created */
 static char* DEAD;       /* id -> freed by the collector / del */
 static char* ROOTF;
+static long* QLATE; static char* QKIND; static char* QPLACE; static long* QA; static long* QB;   /* per F node */
 static long MAXID;
 /* address -> id of the live node there: open addressing */
 static uintptr_t* HK; static long* HV; static long HN;
@@ -74,7 +92,10 @@ static void ensure(long id) {
   long nc = CAP ? CAP : 256; while (nc <= id) nc *= 2;
   LED = realloc(LED, nc * sizeof *LED); KIND = realloc(KIND, nc); DEAD = realloc(DEAD, nc);
   ROOTF = realloc(ROOTF, nc); FIN = realloc(FIN, nc * sizeof *FIN);
-  for (long i = CAP; i < nc; i++) { LED[i] = 0; KIND[i] = 0; DEAD[i] = 0; ROOTF[i] = 0; FIN[i] = 0; }
+  QLATE = realloc(QLATE, nc * sizeof *QLATE); QKIND = realloc(QKIND, nc); QPLACE = realloc(QPLACE, nc);
+  QA = realloc(QA, nc * sizeof *QA); QB = realloc(QB, nc * sizeof *QB);
+  for (long i = CAP; i < nc; i++) { LED[i] = 0; KIND[i] = 0; DEAD[i] = 0; ROOTF[i] = 0; FIN[i] = 0;
+                                    QLATE[i] = 0; QKIND[i] = 0; QPLACE[i] = 0; QA[i] = 0; QB[i] = 0; }
   CAP = nc;
 }
 static void hinit(long n) {
@@ -134,6 +155,8 @@ static void __attribute__((noinline)) op_new(long id, char k, int root) {
   switch (k) {
     case 'S': p = root ? alloc_root(Probe) : alloc(Probe); break;
     case 's': p = alloc_raw(Probe); break;
+    case 'W': p = root ? alloc_root(BigProbe) : alloc(BigProbe); break;
+    case 'F': p = root ? alloc_root(FinProbe) : alloc(FinProbe); break;
     case 'R': p = root ? alloc_root(Ref) : alloc(Ref); break;
     case 'r': p = alloc_raw(Ref); break;
     case 'B': p = root ? alloc_root(Box) : alloc(Box); break;
@@ -147,7 +170,7 @@ static void __attribute__((noinline)) op_new(long id, char k, int root) {
     case 'u': p = new_raw(Tuple); break;
     default: note("badkind"); return;
   }
-  if (k == 'S' || k == 's') { struct Probe* q = p; q->id = id; q->canary = CANARY; }
+  if (k == 'S' || k == 's' || k == 'W' || k == 'F') { struct Probe* q = p; q->id = id; q->canary = CANARY; }
   ensure(id);
   LED[id] = (uintptr_t)p ^ MASK; KIND[id] = k; DEAD[id] = 0; ROOTF[id] = (char)root;
   if (id > MAXID) MAXID = id;
@@ -160,7 +183,7 @@ static void __attribute__((noinline)) op_copy(long id, long src) {
   var p = copy(nptr(src));
   char k = KIND[src];
   if (k >= 'a') k = (char)(k - 'a' + 'A');
-  if (k == 'S') { struct Probe* q = p; q->id = id; q->canary = CANARY; }
+  if (k == 'S' || k == 'W') { struct Probe* q = p; q->id = id; q->canary = CANARY; }
   ensure(id);
   LED[id] = (uintptr_t)p ^ MASK; KIND[id] = k; DEAD[id] = 0; ROOTF[id] = 0;
   if (id > MAXID) MAXID = id;
@@ -172,7 +195,7 @@ static void __attribute__((noinline)) op_copy(long id, long src) {
 static void __attribute__((noinline)) op_store(long id, long i, long t) {
   var p = nptr(id); var q = nptr(t);
   switch (KIND[id]) {
-    case 'S': case 's': { struct Probe* s = p; if (i == 0) s->p0 = q; else s->p1 = q; break; }
+    case 'S': case 's': case 'W': { struct Probe* s = p; if (i == 0) s->p0 = q; else s->p1 = q; break; }
     case 'R': case 'r': ((struct Ref*)p)->val = q; break;
     case 'B': ((struct Box*)p)->val = q; break;
     default: note("badstore");
@@ -207,6 +230,20 @@ static void __attribute__((noinline)) op_tls(int add, long slot, long t) {
   char name[32]; snprintf(name, sizeof name, "k%ld", slot);
   if (add) set(current(Thread), $S(name), nptr(t));
   else rem(current(Thread), $S(name));
+}
+
+/* runs inside the destructor of an F node, i.e. inside GC_Sweep's finaliser loop (or a del) */
+static void __attribute__((noinline)) fin_action(long id) {
+  long lid = QLATE[id];
+  if (lid <= 0 || KIND[lid]) return;
+  op_new(lid, QKIND[id], 0);                 /* alloc: GC_Set while gc->freelist isnt NULL */
+  switch (QPLACE[id]) {
+    case 'K': break;                         /* op_new put it into a stack slot */
+    case 'T': op_tls(1, QA[id], lid); keep_drop(lid); break;
+    case 'P': if (KIND[QA[id]] && !DEAD[QA[id]]) op_store(QA[id], QB[id], lid); else note("finholderdead");
+              keep_drop(lid); break;
+    default: note("badplace");
+  }
 }
 
 static void __attribute__((noinline)) op_del(long id) {
@@ -289,7 +326,7 @@ static void plist(const char* tag, int which) {
       case 1: on = is_reg(KIND[id]) && !DEAD[id] && mem(gcv, nptr(id)); break;
       case 2: on = FIN[id] > 0; break;
       case 3: {
-        if ((KIND[id] == 'S' && !DEAD[id]) || KIND[id] == 's') {
+        if (((KIND[id] == 'S' || KIND[id] == 'W') && !DEAD[id]) || KIND[id] == 's') {
           struct Probe* q = nptr(id); on = q->canary != CANARY || q->id != id;
         }
         break; }
@@ -298,10 +335,23 @@ static void plist(const char* tag, int which) {
   }
 }
 
+/* white-box range_ok: every alive registered node inside the window GC_Mark_Item prefilters with */
+static int window_ok(void) {
+  struct GC* gc = current(GC);
+  for (long id = 1; id <= MAXID; id++) {
+    if (!KIND[id] || !is_reg(KIND[id]) || DEAD[id]) continue;
+    uintptr_t a = LED[id] ^ MASK;
+    if (!GC_Mem_Ptr(gc, (var)a)) continue;
+    if (a < gc->minptr || a > gc->maxptr) return 0;
+  }
+  return 1;
+}
+
 static void observe(char what) {
   P("%c", what);
   if (what == 'G' || what == 'H' || what == 'E') plist("m", 0);
   plist("a", 1); plist("f", 2); plist("c", 3);
+  P(" w=%d", window_ok());
   if (what == 'M') P(" t=%ld", THRESH);
   if (XNOTE[0]) { P(" x=%s", XNOTE); XNOTE[0] = 0; }
   fflush(OUT);
@@ -313,6 +363,12 @@ static void __attribute__((noinline)) exec_tok(char* tok, int* nobs) {
     case 'N': { long id = strtol(tok + 1, &e, 10); char k = *e; int root = e[1] == '!';
       op_new(id, k, root); break; }
     case 'C': { long id = strtol(tok + 1, &e, 10); long src = strtol(e + 1, &e, 10); op_copy(id, src); break; }
+    case 'Q': { long id = strtol(tok + 1, &e, 10); long lid = strtol(e + 1, &e, 10); char k = *e; char pl = e[2];
+      ensure(id > lid ? id : lid);
+      QLATE[id] = lid; QKIND[id] = k; QPLACE[id] = pl;
+      if (pl == 'T') QA[id] = strtol(e + 3, &e, 10);
+      if (pl == 'P') { QA[id] = strtol(e + 3, &e, 10); QB[id] = strtol(e + 1, &e, 10); }
+      break; }
     case 'P': { long id = strtol(tok + 1, &e, 10); long i = strtol(e + 1, &e, 10); long t = strtol(e + 1, &e, 10);
       op_store(id, i, t); break; }
     case 'I': { long id = strtol(tok + 1, &e, 10); long k = strtol(e + 1, &e, 10); long t = strtol(e + 1, &e, 10);
@@ -338,8 +394,12 @@ static void one_case_body(char* line) {
   NKFREE = MAXK; KEEPP = keep;
   /* size the ledgers from the largest id in the script */
   long mx = 16;
-  for (char* s = line; *s; s++) if (*s == 'N' || *s == 'C') { long v = strtol(s + 1, NULL, 10); if (v > mx) mx = v; }
+  for (char* s = line; *s; s++) {
+    if (*s == 'N' || *s == 'C') { long v = strtol(s + 1, NULL, 10); if (v > mx) mx = v; }
+    if (*s == '=' ) { long v = strtol(s + 1, NULL, 10); if (v > mx) mx = v; }      /* late ids of Q */
+  }
   CAP = 0; LED = NULL; KIND = NULL; DEAD = NULL; ROOTF = NULL; FIN = NULL; MAXID = 0;
+  QLATE = NULL; QKIND = NULL; QPLACE = NULL; QA = NULL; QB = NULL;
   ensure(mx + 1);
   KSLOT = calloc(CAP, sizeof *KSLOT); MARKED = calloc(CAP, 1);
   hinit(mx + 1);
